@@ -242,7 +242,7 @@ func SkipRows(fn *ssa.Function) []string {
 	// of the rows below cannot tell `if open { if none { return A }; return B }` from
 	// `if none { return A }; if open { return B }`.
 	// (loop-free functions only: with back edges cut the table is an approximation that depends on block structure)
-	if t := core.ExtractTable(fn); len(loops) == 0 && t.Err == "" && t.N() >= 1 && t.N() <= 14 {
+	if t := core.ExtractTable(fn); len(loops) == 0 && t.Err == "" && t.N() >= 1 && t.N() <= 16 {
 		atomText := make([]string, t.N())
 		for i := 0; i < t.N(); i++ {
 			if v := t.AtomValue(i); v != nil {
